@@ -274,6 +274,8 @@ theorem mergeGo_inner (E) (ns hs ts) : PR Inner (mergeGo E ns hs ts) := by
   | nil => unfold mergeGo; inner
   | cons n ns ih => unfold mergeGo; inner
 macro_rules | `(tactic| inner_leaf) => `(tactic| with_reducible exact mergeGo_inner _ _ _ _)
+theorem announced_inner (E m) : PR Inner (announced E m) := by unfold announced; inner
+macro_rules | `(tactic| inner_leaf) => `(tactic| with_reducible exact announced_inner _ _)
 theorem mergeTrailers_inner (E m ts) : PR Inner (mergeTrailers E m ts) := by unfold mergeTrailers; inner
 macro_rules | `(tactic| inner_leaf) => `(tactic| with_reducible exact mergeTrailers_inner _ _ _)
 theorem parseTrailers_inner (E c) (b : Bytes) : PR Inner (parseTrailers E c b) := by unfold parseTrailers; inner
